@@ -22,31 +22,33 @@ PROP = dict(
     ],
     assumptions=[
         "the input is a Go slice: length < 2^63",
-        "the theorems are about the REPAIRED reader (fix: commits 9bb2025, 8c4d1ff, 318c847, de8385b, a692f50 in the "
+        "the theorems are about the REPAIRED reader (fix: commits 9bb2025, 8c4d1ff, 318c847, de8385b, a692f50, 45be0d5 in the "
         "repository under test); on the original code parse_total, parse_sound and parse_alloc are false (witnesses "
         "in corpus/C07/defects.ops, all reproduced on the original code)",
     ],
     partial=[
-        "hash_terminates / reserialize_ok / toString_terminates are not Lean theorems: parse_sound + unfold_defined "
-        "prove that every parse result is a finite acyclic table (so structural recursion terminates) and that a "
-        "pruned branch is long enough for Hash()/Depth(); that Cell.Hash, ToBoc, ToString do not panic on parse "
-        "results is checked per input by go.parse (the hashing model belongs to C02)",
-        "stack depth of the recursive hasher on very deep ACYCLIC chains is a run-time quantity (Hash recurses once "
-        "per level before answering ErrDepthIsTooBig): measured by go.parse.deep (20 000 cells quick, 1 000 000 "
-        "thorough), not proved",
+        "reserialize_ok / toString_terminates are not Lean theorems (the writer's cell order and ToString are not "
+        "modelled): parse_sound + unfold_defined prove that every parse result is a finite acyclic table of bounded "
+        "depth, hash_no_panic that the tree-level hashing model never panics on it; that Cell.Hash, ToBoc, ToString of "
+        "the real code do not panic on parse results is checked per input by go.parse (the tie of the hashing model "
+        "to immutable_cell.go belongs to C02; root hashes are compared Go vs model on every parsed input here)",
+        "stack use is not modelled as a quantity: the theorems bound the NESTING of any structural recursion over a "
+        "parse result by the 1024-level depth limit (unfold_defined with fuel 1026, independent of the input size); "
+        "that the Go recursions fit the goroutine stack at that depth is measured (go.parse.deep up to 10^6 cells)",
         "Cell.ToString costs Theta(depth^2) characters by its format and Theta(depth^3) time by repeated string "
         "concatenation: it is exercised only for results of depth <= 1024 and <= 20 000 cells",
         "measured allocation bound used by the oracle: TotalAlloc(DeserializeBoc) <= 256*|input| + 1 MiB (a 2-byte cell "
         "costs a 112-byte struct and a 128-byte buffer, so 16 bytes per input byte is not achievable); the model "
-        "theorem is parse_alloc <= 185*|input| + 8 in requested bytes",
+        "theorem is parse_alloc <= 189*|input| + 8 in requested bytes",
     ],
     level="proof",
     level_text="Theorems for ALL byte strings (Lean 4): parse_total -- the model of the repaired reader, with every Go "
                "slice/index/make as an explicit partial operation and Go integer wrap-around, never panics; "
-               "parse_alloc -- bytes requested from the allocator <= 185*|input| + 8 on every path incl. errors; "
+               "parse_alloc -- bytes requested from the allocator <= 189*|input| + 8 on every path incl. errors; "
                "parse_sound -- every returned cell has <= 1023 bits, <= 4 refs, every ref points to a LATER cell of the "
-               "table (acyclic, present), pruned branches are complete, roots are cells; unfold_defined -- hence every "
-               "root denotes a finite tree. Tie: model == Go exactly on ~100k (thorough ~2M) adversarial inputs per run; "
+               "table (acyclic, present), pruned branches are complete, roots are cells, depth <= 1024; unfold_defined -- "
+               "hence every root denotes a finite tree and recursion over it nests <= 1025 levels whatever the input; "
+               "hash_no_panic -- the hashing model never panics on a parse result. Tie: model == Go exactly on ~100k (thorough ~2M) adversarial inputs per run; "
                "direct oracle on Go: no panic / fatal crash / cycle / disproportionate allocation, and Hash, ToBoc, "
                "ToString, re-parse of every result succeed.",
     level_note="trusted: Lean kernel, hand model (exactly compared with Go each run), harness, check.py",
